@@ -542,7 +542,7 @@ pub fn c14_round(rng: &mut Rng, round: u64, st: &mut Stats, progress: &std::sync
             Err(e) => return CaseOutcome::Violated(Violation::new(e, json!({"kind": "c14", "cfg": c}))),
         }
     }
-    let n_threads = if cfg!(miri) { 3 } else { *rng.pick(&[2usize, 3, 4, 8, 16]) };
+    let n_threads = if cfg!(miri) { 3 } else { *rng.pick(&[2usize, 3, 4, 8, 16, 2, 3, 4, 8, 16, 33]) };
     let ops_per_thread = if cfg!(miri) { rng.range(3, 5) } else { rng.range(10, 40) };
     // a shared scanner built beforehand from the first key
     let shared: Option<scnr::Scanner> = cfgs[0].build_uncached().ok();
